@@ -4,6 +4,7 @@ import Zlink.Model.DriverSer
 import Zlink.Model.DriverChain
 import Zlink.Model.DriverSrv
 import Zlink.Model.DriverEnv
+import Zlink.Model.DriverIdl
 /-! `zmodel`: reads case lines on stdin, prints for each the model's observation and the Lean
     oracle's verdict on the implementation's observation. -/
 
@@ -16,6 +17,8 @@ def handleLine (line : String) : String :=
   | "ser" :: _ => DriverSer.handle ts
   | "chain" :: _ => DriverChain.handle ts
   | "srv" :: _ => DriverSrv.handle ts
+  | "idl" :: _ => DriverIdl.handle ts
+  | "idlrt" :: _ => DriverIdl.handle ts
   | "reply" :: _ => DriverEnv.handle ts
   | "calldec" :: _ => DriverEnv.handle ts
   | "enc" :: _ => DriverEnv.handle ts
